@@ -85,6 +85,7 @@ package keeper
 //@      let r1 := old(raw)[KBind(serviceName, provider) := enc_ServiceBinding(nb)][KOwnerBind(owner, serviceName, provider) := emptyVal][KPricing(serviceName, provider) := enc_Pricing(parsePricing(pricing))] in
 //@      raw == (len(ownerOf(old(raw), provider)) == 0 ? r1[KOwner(provider) := enc_BytesValue(mkBytesValue(owner))][KOwnerProv(owner, provider) := emptyVal] : r1))
 //@ ensures error_changes_nothing: err != NoErr ==> raw == old(raw) && bal == old(bal)
+//@ requires a2_provider_present: len(provider) > 0
 
 //@ func (Keeper).UpdateServiceBinding
 //@ vars (keeper.Keeper).UpdateServiceBinding: k=github.com/irismod/service/keeper.Keeper#0 ctx=github.com/cosmos/cosmos-sdk/types.Context#0 serviceName=string#0 provider=github.com/cosmos/cosmos-sdk/types.AccAddress#0 deposit=github.com/cosmos/cosmos-sdk/types.Coins#0 pricing=string#1 qos=uint64#0 options=string#2 owner=github.com/cosmos/cosmos-sdk/types.AccAddress#1 binding=github.com/irismod/service/types.ServiceBinding#0 found=bool#0 updated=bool#1 maxReqTimeout=int64#0 err=error#0 parsedPricing=github.com/irismod/service/types.Pricing#0 err=error#1 err=error#2 minDeposit=github.com/cosmos/cosmos-sdk/types.Coins#1 err=error#3
@@ -146,6 +147,7 @@ package keeper
 //@ vars (keeper.Keeper).PauseRequestContext: k=github.com/irismod/service/keeper.Keeper#0 ctx=github.com/cosmos/cosmos-sdk/types.Context#0 requestContextID=github.com/tendermint/tendermint/libs/bytes.HexBytes#0 consumer=github.com/cosmos/cosmos-sdk/types.AccAddress#0 requestContext=github.com/irismod/service/types.RequestContext#0 found=bool#0 err=error#0
 //@ preserves [C01,C02,C16,C11] pending_requests_stay_well_formed: actInv(raw)
 //@ props C09 C05
+//@ preserves [C16] both_pending_indexes_list_the_same_requests: idxInv(raw)
 //@ preserves [C16] no_orphan_request_or_response_record: recInv(raw)
 //@ preserves [C10] never_more_batches_than_the_largest_total: cadInv(raw, ghostMaxTot)
 //@ preserves [C11] no_event_in_the_past: futInv(raw, ctxHeight(ctx))
@@ -161,6 +163,7 @@ package keeper
 //@ vars (keeper.Keeper).StartRequestContext: k=github.com/irismod/service/keeper.Keeper#0 ctx=github.com/cosmos/cosmos-sdk/types.Context#0 requestContextID=github.com/tendermint/tendermint/libs/bytes.HexBytes#0 consumer=github.com/cosmos/cosmos-sdk/types.AccAddress#0 requestContext=github.com/irismod/service/types.RequestContext#0 found=bool#0 err=error#0
 //@ preserves [C01,C02,C16,C11] pending_requests_stay_well_formed: actInv(raw)
 //@ props C09 C05 C10 C11 C16 C08 C04 C02 C01
+//@ preserves [C16] both_pending_indexes_list_the_same_requests: idxInv(raw)
 //@ preserves [C16] no_orphan_request_or_response_record: recInv(raw)
 //@ requires [C10] never_more_batches_than_the_largest_total: cadInv(raw, ghostMaxTot)
 //@ ensures [C10] never_more_batches_than_the_largest_total_kept: err == NoErr ==> (let c := ctxOf(old(raw), requestContextID) in
@@ -183,6 +186,7 @@ package keeper
 //@ vars (keeper.Keeper).KillRequestContext: k=github.com/irismod/service/keeper.Keeper#0 ctx=github.com/cosmos/cosmos-sdk/types.Context#0 requestContextID=github.com/tendermint/tendermint/libs/bytes.HexBytes#0 consumer=github.com/cosmos/cosmos-sdk/types.AccAddress#0 requestContext=github.com/irismod/service/types.RequestContext#0 found=bool#0 err=error#0
 //@ preserves [C01,C02,C16,C11] pending_requests_stay_well_formed: actInv(raw)
 //@ props C09 C05
+//@ preserves [C16] both_pending_indexes_list_the_same_requests: idxInv(raw)
 //@ preserves [C16] no_orphan_request_or_response_record: recInv(raw)
 //@ preserves [C10] never_more_batches_than_the_largest_total: cadInv(raw, ghostMaxTot)
 //@ preserves [C11] no_event_in_the_past: futInv(raw, ctxHeight(ctx))
@@ -198,6 +202,7 @@ package keeper
 //@ vars (keeper.Keeper).UpdateRequestContext: k=github.com/irismod/service/keeper.Keeper#0 ctx=github.com/cosmos/cosmos-sdk/types.Context#0 requestContextID=github.com/tendermint/tendermint/libs/bytes.HexBytes#0 providers=[]github.com/cosmos/cosmos-sdk/types.AccAddress#0 respThreshold=uint32#0 serviceFeeCap=github.com/cosmos/cosmos-sdk/types.Coins#0 timeout=int64#0 repeatedFreq=uint64#0 repeatedTotal=int64#1 consumer=github.com/cosmos/cosmos-sdk/types.AccAddress#0 requestContext=github.com/irismod/service/types.RequestContext#0 found=bool#0 err=error#0 err=error#1 err=error#2 maxRequestTimeout=int64#2
 //@ preserves [C01,C02,C16,C11] pending_requests_stay_well_formed: actInv(raw)
 //@ props C09 C05 C10
+//@ preserves [C16] both_pending_indexes_list_the_same_requests: idxInv(raw)
 //@ preserves [C16] no_orphan_request_or_response_record: recInv(raw)
 //@ requires [C10] never_more_batches_than_the_largest_total: cadInv(raw, ghostMaxTot)
 //@ ensures [C10] never_more_batches_than_the_largest_total_kept: err == NoErr ==> cadInv(raw, maxNext(ghostMaxTot, raw))
@@ -369,6 +374,7 @@ package keeper
 //@ func (Keeper).AddResponse
 //@ vars (keeper.Keeper).AddResponse: k=github.com/irismod/service/keeper.Keeper#0 ctx=github.com/cosmos/cosmos-sdk/types.Context#0 requestID=github.com/tendermint/tendermint/libs/bytes.HexBytes#0 provider=github.com/cosmos/cosmos-sdk/types.AccAddress#0 result=string#0 output=string#1 request=github.com/irismod/service/types.Request#0 response=github.com/irismod/service/types.Response#0 err=error#0 found=bool#0 err=error#1 err=error#2 requestContextID=github.com/tendermint/tendermint/libs/bytes.HexBytes#1 requestContext=github.com/irismod/service/types.RequestContext#0
 //@ props C02 C08 C05 C12 C04 C07 C20
+//@ requires [C16] both_pending_indexes_list_the_same_requests: idxInv(raw)
 //@ preserves [C16] no_orphan_request_or_response_record: recInv(raw)
 //@ preserves [C10] never_more_batches_than_the_largest_total: cadInv(raw, ghostMaxTot)
 //@ preserves [C11] no_event_in_the_past: futInv(raw, ctxHeight(ctx))
@@ -412,6 +418,8 @@ package keeper
 //@      (malformed(output) ? 0 : amt(reqFee(old(raw), requestID), d) - taxSum(reqFee(old(raw), requestID), len(reqFee(old(raw), requestID)), d)))
 //@ ensures [C01,C02] escrow_exactly_backed_kept: err == NoErr ==> escInv(raw, bal)
 //@ after escrow_exactly_backed_kept assume pending_total_drops_by_the_fee earnings_total_grows_by_fee_minus_tax_unless_malformed malformed_output_slashes_and_refunds_the_consumer good_response_pays_tax_and_never_slashes
+//@ ensures [C16] both_pending_indexes_list_the_same_requests_kept: err == NoErr ==> idxInv(raw)
+//@ after both_pending_indexes_list_the_same_requests_kept assume accepted_only_from_its_provider_while_pending no_longer_pending_in_either_index touches_only_its_own_records response_counted_and_batch_completed_when_all_answered
 
 // ---------------------------------------------------------------- issuing a batch (C06, C01, C08, C12)
 //@ func (Keeper).FilterServiceProviders
@@ -493,6 +501,7 @@ package keeper
 //@ func (Keeper).CreateRequestContext
 //@ vars (keeper.Keeper).CreateRequestContext: k=github.com/irismod/service/keeper.Keeper#0 ctx=github.com/cosmos/cosmos-sdk/types.Context#0 serviceName=string#0 providers=[]github.com/cosmos/cosmos-sdk/types.AccAddress#0 consumer=github.com/cosmos/cosmos-sdk/types.AccAddress#0 input=string#1 serviceFeeCap=github.com/cosmos/cosmos-sdk/types.Coins#0 timeout=int64#0 superMode=bool#0 repeated=bool#1 repeatedFrequency=uint64#0 repeatedTotal=int64#1 state=github.com/irismod/service/types.RequestContextState#0 responseThreshold=uint32#0 moduleName=string#2 err=error#0 err=error#1 err=error#2 found=bool#2 err=error#3 err=error#4 maxRequestTimeout=int64#2 batchCounter=uint64#1 batchRequestCount=uint32#1 batchResponseCount=uint32#2 batchResponseThreshold=uint32#3 batchState=github.com/irismod/service/types.RequestContextBatchState#0 requestContext=github.com/irismod/service/types.RequestContext#0 txHash=[]byte#0 msgIndex=int64#3 requestContextID=github.com/tendermint/tendermint/libs/bytes.HexBytes#0
 //@ props C10 C09 C18 C15 C11
+//@ preserves [C16] both_pending_indexes_list_the_same_requests: idxInv(raw)
 //@ preserves [C16] no_orphan_request_or_response_record: recInv(raw)
 //@ requires [C10] never_more_batches_than_the_largest_total: cadInv(raw, ghostMaxTot)
 //@ ensures [C10] never_more_batches_than_the_largest_total_kept: err == NoErr ==> cadInv(raw, maxNext(ghostMaxTot, raw))
@@ -745,6 +754,7 @@ package keeper
 //@ func (Keeper).RequestModuleService
 //@ vars (keeper.Keeper).RequestModuleService: k=github.com/irismod/service/keeper.Keeper#0 ctx=github.com/cosmos/cosmos-sdk/types.Context#0 moduleService=*github.com/irismod/service/types.ModuleService#0 reqContextID=github.com/tendermint/tendermint/libs/bytes.HexBytes#0 consumer=github.com/cosmos/cosmos-sdk/types.AccAddress#0 input=string#0 requestContext=github.com/irismod/service/types.RequestContext#0 found=bool#0 totalPrices=github.com/cosmos/cosmos-sdk/types.Coins#0 err=error#0 err=error#1 requestIDs=[]github.com/tendermint/tendermint/libs/bytes.HexBytes#0 result=string#1 output=string#2 request=github.com/irismod/service/types.Request#0
 //@ props C10 C01 C02
+//@ preserves [C16] both_pending_indexes_list_the_same_requests: idxInv(raw)
 //@ preserves [C16] no_orphan_request_or_response_record: recInv(raw)
 //@ modifies raw, bal, supply, cblog
 //@ preserves wf: WF(raw)
